@@ -193,6 +193,22 @@ def r1(ctx):
         if h is not None:
             ok, why = _conditional_on_swallow_flag(h, tch.node)
             ctx.ob(R, f"{tch.qual}: handler of {norm(c)} re-raises only when not swallowing", ok, ctx.w(tch, h), why)
+            # whatever the callers do with the result (`if ret:`) happens outside this try: the result must have been
+            # truth-tested in here, so that a value whose __bool__ raises is this addon's failure
+            tc_try = parent(h)
+            res_names = set()
+            st_c = enclosing_stmt(c)
+            if isinstance(st_c, ast.Assign) and st_c.value is c:
+                res_names = {ap(t) for t in st_c.targets}
+            for r_ in [x for st_ in tc_try.body for x in walk(st_) if isinstance(x, ast.Return) and x.value is not None]:
+                raw = r_.value is c or (ap(r_.value) in res_names)
+                if not (raw or any(x is c for x in ast.walk(r_.value)) or
+                        any(isinstance(x, ast.Name) and x.id in res_names for x in ast.walk(r_.value))):
+                    continue
+                tested = not raw or any(ap(e) in res_names for e, _ in facts(r_, tch.node))
+                ctx.ob(R, f"{tch.qual}: result of {norm(c)} is truth-tested inside the guarded region before it is returned",
+                       tested, ctx.w(tch, r_), "the dispatch loops test `if ret:` outside the try: a hook result whose truth value "
+                       "raises (numpy array ...) escapes the isolation - later hooks, the logger and the forward do not run")
             # the handler itself must not be able to fail on the values handed to the hook
             passed = {n.id for a in list(c.args) + [k.value for k in c.keywords] for n in ast.walk(a)
                       if isinstance(n, ast.Name)}
@@ -933,6 +949,49 @@ def r3(ctx):
         ctx.ob(R, f"{dm.qual}: every exit after `{norm(n.ast)}` passes `{recv}.finalized = True`", path is None,
                ctx.w(dm, n.ast), "a failing call after the drop leaves the message dropped but not finalized: "
                "handle_proxied_packet's tail would still forward it", cfg.describe_path(path) if path else None)
+    # every way drop_message() completes normally records the drop (also for a message that has no packet id yet)
+    path = cfg_search(cfg, [cfg.entry], target=lambda x: x is cfg.exit, avoid=is_fin, follow_exc=lambda x: False)
+    ctx.ob(R, f"{dm.qual}: every normal completion passes `{recv}.finalized = True`", path is None, dm.where,
+           "drop_message returns normally without finalizing the message (e.g. for a taken copy that has no packet id): the "
+           "drop is forgotten, the message can be dropped again and sent afterwards without the re-send / re-drop error",
+           cfg.describe_path(path) if path else None)
+    drop_all = {n for n in cfg.nodes if n.kind == "stmt" and isinstance(n.ast, ast.Assign) and _is_true(n.ast.value)
+                and any(ap(t) == f"{recv}.dropped" for t in n.ast.targets)}
+    path = cfg_search(cfg, [cfg.entry], target=lambda x: x is cfg.exit, avoid=lambda x: x in drop_all, follow_exc=lambda x: False)
+    ctx.ob(R, f"{dm.qual}: every normal completion passes `{recv}.dropped = True`", path is None, dm.where,
+           "drop_message returns normally without marking the message dropped", cfg.describe_path(path) if path else None)
+    # the proxy's own drops run after hook points that may already have sent or dropped the message
+    n_own = 0
+    for f_, c_ in call_index(repo).get("drop_message", []):
+        if not c_.args or (f_.cls is not None and any(k.name in ("Circuit", "ProxiedCircuit") for k in repo.mro(f_.cls))):
+            continue
+        x_ = ap(c_.args[0])
+        if not x_:
+            continue
+        n_own += 1
+        fn_ = f_.node
+        for a_ in ancestors(c_):
+            if isinstance(a_, FUNC_TYPES):
+                fn_ = a_
+                break
+        ok = _path_fact(c_, f"{x_}.finalized", False, fn_)
+        if not ok and f_.cls is not None:
+            sites_ = [(g_, cc) for g_, cc in call_index(repo).get(f_.name, []) if isinstance(cc.func, ast.Attribute)
+                      and ap(cc.func.value) in ("self", "cls") and g_.cls is not None and g_.cls == f_.cls]
+            params_ = [a.arg for a in f_.node.args.args][1:]
+            if sites_ and x_ in params_:
+                i_ = params_.index(x_)
+                ok = all(i_ < len(cc.args) and ap(cc.args[i_]) and _path_fact(cc, f"{ap(cc.args[i_])}.finalized", False, g_.node)
+                         for g_, cc in sites_)
+        cond = "-"
+        for a_ in ancestors(c_):
+            if isinstance(a_, ast.If):
+                cond = norm(a_.test)
+                break
+        ctx.ob(R, f"{f_.qual}: {norm(c_)} under [{cond}] only while {x_} is not finalized", ok, ctx.w(f_, c_),
+               "hooks / subscribers that ran before may have sent or dropped the message: drop_message() on a finalized "
+               "message raises out of the packet handler (logger and post-hook bookkeeping skipped, command not dispatched)")
+    ctx.floor(R, "drop_message call sites of the proxy itself", n_own, 2)
     wire = _wire_methods(repo, dm.cls)
     ctx.floor(R, "methods of the circuit that reach send_packet", len(wire), 3)
     for c in calls(dm.node):
@@ -1015,8 +1074,9 @@ def r4_r6(ctx):
                 # conditions added between the hook call and the drop: exactly `message.queued`
                 base = {(norm(e), pol) for e, pol in facts(enclosing_stmt(hc), f.node)}
                 extra = {(norm(e), pol) for e, pol in facts(c, f.node)} - base
-                ok = len(extra) == 1 and all(k.endswith(".queued") and pol for k, pol in extra)
-                ctx.ob(R4, f"{norm(c)} happens for every queued original", ok, ctx.w(f, c),
+                ok = any(k.endswith(".queued") and pol for k, pol in extra) and all(
+                    (k.endswith(".queued") and pol) or (k.endswith(".finalized") and not pol) for k, pol in extra)
+                ctx.ob(R4, f"{norm(c)} happens for every queued original that is not finalized yet", ok, ctx.w(f, c),
                        f"drop additionally depends on {sorted(k if p else 'not ' + k for k, p in extra)}: some taken "
                        f"originals are neither dropped nor acked and the tail then tries to send a queued message")
 
